@@ -19,10 +19,13 @@
    exactly the declarative graph (SeedProofs, phase by phase), the layout formula makes the node
    encoding strictly increasing and every link join declared nodes (LayoutProofs); so
    C04_loaded_graph_denotes has no hypothesis beyond `the document loads and seeds`.
+   The same holds in the structure-oriented layout (theorems C04_struct_...): the layout is characterised in closed form
+   (StructLayout), seed builds exactly the declarative graph including the links between the occurrences of a
+   strand (StructSeed), and a successful seed shows that every strand with nucleotides occurs in a structure.
    The denotation-level oracle of the correspondence check decides the same statement independently. *)
 From Coq Require Import List String Ascii Arith.
 From PC Require Import Base.Codes Comp.Syntax Comp.Compile Design.Propagate Design.PropagateProofs Design.Designer Design.DesignerProofs Design.TemplateProofs
-  Design.Contraction Design.DGraph Design.DenoteGraph Design.DenoteTie Design.DenoteSat Design.LoadProofs Design.SeedProofs Design.LayoutProofs Design.Loaded Design.BlankProofs.
+  Design.Contraction Design.DGraph Design.DenoteGraph Design.DenoteTie Design.DenoteSat Design.LoadProofs Design.SeedProofs Design.LayoutProofs Design.Loaded Design.BlankProofs Design.StructLayout Design.StructSeed Design.StructTotal Design.LoadedStruct.
 Import ListNotations.
 
 Theorem C04_closure_exact_partial : forall g, graph_closed g = true ->
@@ -162,3 +165,30 @@ Theorem C04_two_blanks_after_strand : forall ls p lay g, load_spec ls pspec0 = O
   (forall n' its' l' d' post', post = (n', (its', l', d')) :: post' -> tstart_of lay n' = width pre + l + 2).
 Proof. exact two_blanks_after_strand. Qed.
 Print Assumptions C04_two_blanks_after_strand.
+
+(* structure-oriented layout, no per-case hypothesis: every loaded and seeded document *)
+Theorem C04_struct_loaded_graph_denotes : forall (ls : list pline) (p : pspec) (lay : layout) (g : cgraph),
+  load_spec ls pspec0 = OK p -> seed p true = OK (lay, g) ->
+  forall x q y, In x (nodes p true) -> In y (nodes p true) ->
+  (gconn g (enc p lay x) q (enc p lay y) <->
+   pconn dnode (Rc_links p true) (fst (kap p true x)) (xorb q (xorb (snd (kap p true x)) (snd (kap p true y)))) (fst (kap p true y))).
+Proof. exact sloaded_graph_denotes. Qed.
+Print Assumptions C04_struct_loaded_graph_denotes.
+
+Theorem C04_struct_loaded_hypotheses : forall (ls : list pline) (p : pspec) (lay : layout) (g : cgraph),
+  load_spec ls pspec0 = OK p -> seed p true = OK (lay, g) ->
+  lay = build_layout p true /\ spec_wf p true /\ same_graph p lay true g = true /\ dgraph_ok p lay true = true /\
+  place_okb p lay true = true /\ graph_ok g = true.
+Proof. intros ls p lay g L S. exact (conj (sloaded_layout ls p lay g L S) (conj (sloaded_wf ls p lay g L S) (conj (sloaded_same ls p lay g L S)
+  (conj (sloaded_dgraph ls p lay g L S) (conj (sloaded_place ls p lay g L S) (sloaded_graph_ok ls p lay g L S)))))). Qed.
+Print Assumptions C04_struct_loaded_hypotheses.
+
+(* the graph seed returns in the structure layout is the declarative graph, phase by phase; a successful seed
+   means every strand with nucleotides occurs in a structure *)
+Theorem C04_struct_seed_is_declarative : forall (p : pspec), LI p -> forall (lay : layout) (g : cgraph), seed p true = OK (lay, g) ->
+  lay = build_layout p true /\
+  g_st g = map (fun nc => (enc p (build_layout p true) (fst nc), snd nc)) (d_nodes p true) /\
+  g_eq g = enc_links p (build_layout p true) (d_eq p true) /\ g_wc g = enc_links p (build_layout p true) (d_wc p true) /\
+  g_keys g = map fst (g_st g) /\ placed p.
+Proof. exact seed_graph_struct. Qed.
+Print Assumptions C04_struct_seed_is_declarative.
